@@ -3,9 +3,10 @@ CONSTANTS
   IdxNames = {"i1"}
   MaxCols = 3
   MaxRows = 2
-  MaxSteps = 4
-  Level = "small"
-INIT Init
+  MaxSteps = 1
+  Level = "tiny"
+  MCTpls = {1, 5}
+INIT InitMC
 NEXT Next
 VIEW View
 INVARIANTS TypeOK ColumnNamesUnique KeyColsExist ValuesTyped Integrity PKNotNull
